@@ -52,7 +52,7 @@ fn forms(tier: Tier) -> Vec<Form> {
         }
         groups.entry(name).or_default().push(c);
     }
-    let nvar = if tier.thorough() { 5 } else { 2 };
+    let nvar = if tier.thorough() { 400 } else { 2 };
     order
         .into_iter()
         .map(|name| {
